@@ -350,6 +350,15 @@ def task_rules(prog, rep):
                         okpp = True
     rep.check(okpp, "R-C13-c", fp.fq, "ccube.product pairs each coordinate tuple with the slice it labels, per dimension in dims order", "{'coords': c, 'data': s} for c, s in dim.slices1d()",
               "coords and data of a product element are not the two halves of one slices1d item")
+    # every extra-axis position yields a sub-cube: the comprehensions that build the product do not filter
+    filt = [(lid, li["conds"]) for lid, li in Ip.loopinfo.items() if li.get("conds")]
+    if filt:
+        rep.violated("R-C13-b", fp.fq, "ccube.product enumerates EVERY extra-axis position",
+                     "a comprehension of the product filters its items (%s): a position whose slice is dropped gets no sub-cube at all, so the other dimensions' contributions at that position are never computed and the block keeps only the pre-seeded grand total"
+                     % "; ".join(tm.show(c)[:40] for lid, cs in filt for c in cs)[:120],
+                     witness={"inputs": "a cube over a multi-column dimension in which one column holds only the common value, crossed with another dimension"})
+    else:
+        rep.proved("R-C13-b", fp.fq, "ccube.product enumerates EVERY extra-axis position", "no filter in the comprehensions that build the product")
     # ---------------- xcube task
     infox = tasks.analyse_cube(prog, "xcubes", "xcube", max_depth=2)
     Ix = infox.I
